@@ -143,6 +143,8 @@ def run(ck):
 
     # ------------------------------------------------------------------ one case: real run, oracle, model request
     def one(cfg, script, cmds, bucket, exhaustive_part=False):
+        if len(ck.fails) >= 50:
+            return None      # enough failing inputs recorded (Check keeps 50); do not grind through a broken tree
         tag, air, card, results = run_real(cfg, script, cmds, sims, tt4, nfc.clf)
         dep = tag._dep
         trace = [b for b, _ in air.trace]
